@@ -33,7 +33,7 @@ def draw_tree(draw, max_depth=3, max_files=3, max_subdirs=3, max_cmds=3, odd_nam
 
     def content(name):
         if refs.is_cmake(name):
-            if duplicates and made and draw(st.integers(0, 3)) == 0:
+            if duplicates and made and draw(st.integers(0, 2)) == 0:
                 return draw(st.sampled_from(made))       # a byte-identical copy of an earlier module
             tag = f"f{counter[0]}"
             counter[0] += 1
@@ -80,6 +80,13 @@ def add_numeric_twins(draw, tree):
                           if tree[k] is not None and posixpath.dirname(k) == posixpath.dirname(rel) and "." in posixpath.basename(k)}
             if twin not in tree and "n01" not in stems_here:
                 tree[twin] = tree[rel].replace("zq", "zr") if refs.is_cmake(twin) else "twin\n"
+        if tree[rel] is not None and base.startswith("n1.") and draw(st.booleans()):
+            # and a twin that differs only in letter case
+            twin = posixpath.join(posixpath.dirname(rel), "N1." + base.split(".", 1)[1])
+            stems_here = {refs.stem(posixpath.basename(k)) for k in tree
+                          if tree[k] is not None and posixpath.dirname(k) == posixpath.dirname(rel) and "." in posixpath.basename(k)}
+            if twin not in tree and "N1" not in stems_here:
+                tree[twin] = tree[rel].replace("zq", "zs") if refs.is_cmake(twin) else "twin\n"
     return tree
 
 
